@@ -59,10 +59,94 @@ func init() {
 				}
 			}
 		}
+		// under which conditions the loop makes its calls, and how each conditional block ends
+		body += "\n(* processMessageLoop: every call with the conditions of the if statements around it (innermost last), and, for\n   each if statement of the loop body, how its block ends *)\n"
+		body += "Definition pipe_loop_guards : list string := " + coqStrList(callContexts(funcDecl(f, "MessageStore", "processMessageLoop"),
+			[]string{"WaitForItem", "getOrCreateDeviceCache", "processMessage", "Add", "processDeviceMessagesInQueue", "Emit"})) + ".\n"
 		body += "\n(* functions that write the hasKnownChainKey flag of a device cache; return statements of the two functions that hold muDeviceCaches *)\n"
 		body += "Definition chain_key_flag_writers : list string := " + coqStrList(writers) + ".\n"
 		body += "Definition chain_key_flag_users : list string := " + coqStrList(users) + ".\n"
 		body += fmt.Sprintf("Definition pipe_returns : nat * nat := (%d, %d)%%nat.\n", returns["getOrCreateDeviceCache"], returns["ProcessMessageQueueForDevicePK"])
 		write("Pipeline.v", body)
 	})
+}
+
+// callContexts lists, in source order, the calls of fd to the given helpers, each with the conditions of the
+// enclosing if statements ("call X @ c1 @ c2"; an else branch is "else(c)"), and for every if statement an
+// entry "if c ends <continue|return|break|fallthrough-to-next>" saying how its block ends.
+func callContexts(fd *ast.FuncDecl, helpers []string) []string {
+	var out []string
+	if fd == nil || fd.Body == nil {
+		return out
+	}
+	want := map[string]bool{}
+	for _, h := range helpers {
+		want[h] = true
+	}
+	blockEnd := func(b *ast.BlockStmt) string {
+		if b == nil || len(b.List) == 0 {
+			return "next"
+		}
+		switch x := b.List[len(b.List)-1].(type) {
+		case *ast.ReturnStmt:
+			return "return"
+		case *ast.BranchStmt:
+			return x.Tok.String()
+		}
+		return "next"
+	}
+	var walkStmt func(st ast.Stmt, ctx []string)
+	calls := func(n ast.Node, ctx []string) {
+		ast.Inspect(n, func(m ast.Node) bool {
+			switch c := m.(type) {
+			case *ast.FuncLit:
+				return false
+			case *ast.CallExpr:
+				name := ""
+				switch f := c.Fun.(type) {
+				case *ast.SelectorExpr:
+					name = f.Sel.Name
+				case *ast.Ident:
+					name = f.Name
+				}
+				if want[name] {
+					out = append(out, strings.Join(append([]string{"call " + name}, ctx...), " @ "))
+				}
+			}
+			return true
+		})
+	}
+	walkBlock := func(b *ast.BlockStmt, ctx []string) {
+		if b == nil {
+			return
+		}
+		for _, st := range b.List {
+			walkStmt(st, ctx)
+		}
+	}
+	walkStmt = func(st ast.Stmt, ctx []string) {
+		switch x := st.(type) {
+		case *ast.IfStmt:
+			if x.Init != nil {
+				calls(x.Init, ctx)
+			}
+			calls(x.Cond, ctx)
+			cond := exprString(x.Cond)
+			out = append(out, "if "+cond+" ends "+blockEnd(x.Body))
+			walkBlock(x.Body, append(append([]string{}, ctx...), cond))
+			if x.Else != nil {
+				walkStmt(x.Else, append(append([]string{}, ctx...), "else("+cond+")"))
+			}
+		case *ast.BlockStmt:
+			walkBlock(x, ctx)
+		case *ast.ForStmt:
+			walkBlock(x.Body, ctx)
+		case *ast.RangeStmt:
+			walkBlock(x.Body, ctx)
+		default:
+			calls(st, ctx)
+		}
+	}
+	walkBlock(fd.Body, nil)
+	return out
 }
